@@ -23,7 +23,8 @@ RULE = ('cases = conversation (echo, multi-fragment store, pipelined, release by
         'offset over every byte prefix of the peer stream x ending {FIN, RST, silence} (quick: '
         'every offset with one seeded ending; thorough: all three) + kill requested at every '
         'quiescent point + provider stalls; non-trivial = cut strictly inside the conversation; '
-        'distinct = distinct (conversation, offset, ending, kill point)')
+        'distinct = distinct (conversation, offset, ending, kill point)'
+        '; resets right behind complete PDUs; association-level endings on real AEs under silent peers, also while other associations come and go (ARTIM, not the application time-out, must end the waiting)')
 ASSUMPTIONS = ['silence only has to end the provider where ARTIM is armed (Sta2, Sta13)',
                'bound = ARTIM (10 s) + 1 s of virtual time after the last environment action',
                'kill() = DULServiceProvider.kill(); Association.kill is covered in the P2 part']
